@@ -348,28 +348,34 @@ def _i2c(spec):
 
 
 class I2cHint:
-    """speculation hint for the I2C master: mirrors the hold rule of the Wishbone write and the
-    slave's SDA rule of I2c.tla (a level that breaks it leads to the dead context).
-    ctx = (wb, cmd, pscl, done) with cmd = None or (kind, d, a, r)"""
+    """speculation hint for the I2C master: mirrors the hold rule of the Wishbone write, the transaction
+    grammar and the slave's SDA rule of I2c.tla (a level that breaks it leads to the dead context).
+    ctx = (wb, cmd, pscl, done, bus) with cmd = None or (kind, d, a, r)"""
     DEAD = "dead"
 
     def init(self, cfg):
-        return (None, None, 1, 2)
+        return (None, None, 1, 2, "free")
+
+    @staticmethod
+    def _kind(w):
+        return "start" if w & 2048 else "stop" if w & 4096 else "write" if w & 1024 else "read"
 
     def allowed(self, cfg, ctx, iv):
         if ctx == self.DEAD:
             return False
-        wb, cmd, pscl, done = ctx
+        wb, cmd, pscl, done, bus = ctx
         if wb is not None:
             return iv[0] == 1 and (iv[1], iv[3]) == wb
         if iv[0] == 0:
             return iv[1] == 0 and iv[3] == 0
         if cmd is None:
-            return done >= 1
+            k = self._kind(iv[1])
+            ok = k == "start" if bus == "free" else k == "write" if bus == "start" else True
+            return done >= 1 and ok and k in cfg["cmds"]
         return cfg["early"] == 1 and cmd[0] == "write" and iv[1] == 1024 + cfg["bytes"][0] and iv[3] == 1
 
     def next(self, cfg, ctx, iv, o):
-        wb, cmd, pscl, done = ctx
+        wb, cmd, pscl, done, bus = ctx
         scl = 1 - o[1]
         lvl = 1
         if cmd is not None:
@@ -389,16 +395,18 @@ class I2cHint:
         finish = cmd is not None and o[5] == 1
         if issue:
             w, g = wb
-            kind = "start" if w & 2048 else "stop" if w & 4096 else "write" if w & 1024 else "read"
+            kind = self._kind(w)
             ncmd = (kind, cfg["sbytes"][g - 1] if kind == "read" else w & 255,
                     g - 1 if kind == "write" else (w >> 8) & 1, 0)
         elif cmd is None or finish:
             ncmd = None
         else:
             ncmd = cmd
+        if finish:
+            bus = "start" if cmd[0] == "start" else "free" if cmd[0] == "stop" else "low"
         nwb = (None if o[0] == 1 else wb) if wb is not None else ((iv[1], iv[3]) if iv[0] == 1 else None)
         ndone = 0 if (cmd is not None or issue) else min(done + 1, 2)
-        return (nwb, ncmd, scl, ndone)
+        return (nwb, ncmd, scl, ndone, bus)
 
 
 MAKERS = {"timer": _timer, "wdt": _wdt, "wait": _wait, "tline": _tline, "pwm": _pwm,
@@ -456,7 +464,7 @@ def timer_configs(tier):
     wdt(2, -1, 1, [2], [2, 3, 10, 11], wit=W0 + ["paused by halt"])
     if not q:
         wdt(3, -1, 0, [0, 5, 7], [0, 1, 2, 3], strict=1, followup=1, grp="w3", wit=W0)
-        wdt(2, 1, 0, [1], [1, 2, 4, 6, 7], wit=W0 + ["reset asserted"])
+        wdt(2, 1, 0, [2], [1, 2, 4, 6, 7], wit=W0 + ["reset asserted"])
         wdt(2, 3, 1, [2], [2, 6, 7, 14, 15], strict=1, followup=1, grp="w2", wit=W0 + ["reset asserted", "paused by halt"])
     for t in ([0, 1, 3] if q else [0, 1, 2, 3, 5, 8]):
         c.add({"core": "wait", "t": t}, t=t, live=1)
@@ -602,3 +610,147 @@ def i2c_configs(tier):
         i2c(3, bytes_=(0x5a, 0xff), sbytes=(0xa5, 0x01))
         i2c(5, bytes_=(0x3c,), sbytes=(0xc3,))
     return c.L
+
+
+# ------------------------------------------------------------------------------------- T-mode
+class TimersHint:
+    """the Timers environments have no hold rules except PWM's one-field-per-cycle rule"""
+    def init(self, cfg):
+        return (0, 0, 0, 1) if cfg["kind"] == "pwm" else None
+
+    def allowed(self, cfg, ctx, iv):
+        if cfg["kind"] == "pwm":
+            return sum(1 for a, b in zip(ctx, iv) if a != b) <= 1
+        return True
+
+    def next(self, cfg, ctx, iv, o):
+        return tuple(iv) if cfg["kind"] == "pwm" else None
+
+
+def tmode_configs(tier):
+    """realistic parameters for trace validation (T-mode): (family, spec, cfg, cycles)"""
+    c = _Cfgs()
+    q = tier == "quick"
+
+    def add(fam_, cycles, spec, **cfg):
+        c.add(spec, **cfg)
+        c.L[-1] = (fam_,) + c.L[-1] + (cycles,)
+    B = [0x00, 0xff, 0x55, 0xa6, 0x81, 0x7e, 0x13]
+    # UART at 50 MHz: 115207 Bd (434 cycles/bit), 921659 Bd (54.25 cycles/bit), 1.85 MBd (27 cycles/bit)
+    for pn, pd, rs in [(434, 1, 1), (217, 4, -1), (27, 1, -1)] + ([] if q else [(868, 1, 1), (109, 2, 1)]):
+        add("uart", 12 * pn // pd * 3 + 200, {"core": "uarttx", "pn": pn, "pd": pd, "rs": rs}, kind="tx", pn=pn, pd=pd, rs=rs, bytes=B)
+    for n, pct in [(434, 98), (434, 102), (27, 100)] + ([] if q else [(54, 98), (54, 102), (868, 101)]):
+        from math import gcd
+        tn, td = n * pct, 100
+        g = gcd(tn, td)
+        tn, td = tn // g, td // g
+        add("uart", 12 * n * 3 + 300, {"core": "uartrx", "pn": n, "pd": 1, "rs": 0 if n & (n - 1) == 0 else 1},
+            kind="rx", pn=n, pd=1, rs=0 if n & (n - 1) == 0 else 1, tn=tn, td=td, phis=list(range(0, td, max(1, td // 7))),
+            bytes=B, brk=1)
+    # timers at (almost) full width: TLC integers are 32 bit, so 30-bit counters
+    add("timers", 2500, {"core": "timer", "w": 30}, kind="timer", w=30, lv=[1000, 0, 2**30 - 1, 37], rv=[0, 300, 77],
+        regs=[2, 3, 6, 7], period=0)
+    add("timers", 2500, {"core": "wdt", "w": 30, "rd": 50, "halt": 1}, kind="wdt", w=30, rd=50, halt=1, vals=[400, 90, 2**30 - 1],
+        ctl=[1, 2, 3, 6, 7, 10, 11, 14, 15], strict=0)
+    add("timers", 3000, {"core": "wait", "t": 1000}, kind="wait", t=1000)
+    add("timers", 600, {"core": "tline", "ev": [0, 7, 19, 100]}, kind="tline", ev=[0, 7, 19, 100])
+    add("timers", 1500, {"core": "pwm"}, kind="pwm", pmax=40, wmax=45)
+    # SPI: 16-bit words, divider 10 / 7
+    W16 = [0xa5c3, 0x0001, 0x8000, 0xffff, 0x1234]
+    for div, mode, dw in [(10, "raw", 16), (7, "aligned", 16)] + ([] if q else [(2, "raw", 24), (33, "aligned", 8)]):
+        add("spim", 3000, {"core": "spim", "dw": dw, "div": div, "mode": mode, "loop": 0, "pu": 0}, kind="spim", dw=dw, mode=mode,
+            loop=0, idle=1, lens=[1, 7, 8, dw - 1, dw], words=[x % (1 << dw) for x in W16], csopts=[[1, 0], [1, 1], [0, 0]],
+            overlap=1, pu=0)
+    add("spis", 3000, {"core": "spis", "dw": 16, "h": 6, "gap": 3}, kind="spis", dw=16, h=6, gap=3, lens=[1, 8, 15, 16, 20],
+        words=W16, txws=[0x5a3c, 0xffff, 0x8001])
+    add("i2c", 4000, {"core": "i2c", "load": 9}, kind="i2c", load=9, cmds=["start", "stop", "write", "read"],
+        bytes=[0xa0, 0xa1, 0x00, 0xff, 0x3c], sbytes=[0x5a, 0xff, 0x00, 0x81], early=0)
+    if not q:
+        add("i2c", 6000, {"core": "i2c", "load": 124}, kind="i2c", load=124, cmds=["start", "stop", "write", "read"],
+            bytes=[0xa0, 0x55], sbytes=[0x5a, 0x81], early=0)
+    return c.L
+
+
+def tmode_candidates(cfg, ctx, rnd):
+    """a few input vectors the environment of cfg["kind"] might apply now (filtered by the hint and
+    judged by TLC's EnvLegal afterwards), most wanted first"""
+    k = cfg["kind"]
+    if k == "tx":
+        if ctx >= 0:
+            return [(1, ctx)]
+        return [(1, rnd.choice(cfg["bytes"]))] if rnd.random() < 0.7 else [(0, 0)]
+    if k == "rx":
+        ncodes = len(cfg["bytes"]) * 2 * len(cfg["phis"])
+        start = (0, rnd.randint(1, ncodes))
+        t = ctx[0]
+        if t is not None and t[1] + 1 < len(t[0]):
+            return [(t[0][t[1] + 1], 0)]
+        return [start, (1, 0)] if rnd.random() < 0.3 else [(1, 0), start]
+    if k == "timer":
+        r = rnd.random()
+        if r < 0.9:
+            return [(0, 0, 0)]
+        reg = rnd.choice([0, 1] + cfg["regs"])
+        val = rnd.choice(cfg["lv"]) if reg == 0 else rnd.choice(cfg["rv"]) if reg == 1 else 1 if reg in (3, 6) else rnd.randint(0, 1)
+        return [(1, reg, val)]
+    if k == "wdt":
+        h = 1 if rnd.random() < 0.2 else 0
+        if rnd.random() < 0.96:
+            return [(0, 0, 0, h)]
+        reg = rnd.choice([0, 0, 0, 1, 4, 5])
+        val = rnd.choice(cfg["ctl"]) if reg == 0 else rnd.choice(cfg["vals"]) if reg == 1 else 1 if reg == 4 else rnd.randint(0, 1)
+        return [(1, reg, val, h)]
+    if k == "wait":
+        return [(0,)] if rnd.random() < 0.002 else [(1,)]
+    if k == "tline":
+        return [(1,)] if rnd.random() < 0.05 else [(0,)]
+    if k == "pwm":
+        b = list(ctx)
+        if rnd.random() < 0.02:
+            f = rnd.randint(0, 3)
+            b[f] = (1 - b[f]) if f < 2 else rnd.randint(0, cfg["wmax"]) if f == 2 else rnd.randint(1, cfg["pmax"])
+        elif b[0] == 0 and rnd.random() < 0.3:
+            b[0] = 1
+        elif b[1] == 1 and rnd.random() < 0.3:
+            b[1] = 0
+        return [tuple(b), tuple(ctx)]
+    if k == "spim":
+        busy, hl, hw, cs, csm = ctx[:5]
+        m = [rnd.randint(0, 1)]
+        m.append(1 - m[0])
+        if busy:
+            s = 1 if rnd.random() < 0.05 else 0
+            return [(s, hl, hw, cs, csm, b) for b in m] + [(0, hl, hw, cs, csm, b) for b in m]
+        if rnd.random() < 0.2:
+            L, W = rnd.choice(cfg["lens"]), rnd.choice(cfg["words"])
+            return [(1, L, W, cs, csm, b) for b in m]
+        q = rnd.choice(cfg["csopts"]) if rnd.random() < 0.05 else (cs, csm)
+        return [(0, 0, 0, q[0], q[1], b) for b in m]
+    if k == "spis":
+        wf, p = ctx[0], ctx[1]
+        if wf is not None and p + 1 < len(wf):
+            return [wf[p + 1]]
+        g = rnd.randint(1, len(cfg["lens"]) * len(cfg["words"]))
+        X = cfg["words"][(g - 1) // len(cfg["lens"])]
+        start = (0, 0, (X >> (cfg["dw"] - 1)) & 1, rnd.choice(cfg["txws"]), g)
+        return [start, (0, 1, 0, 0, 0)] if rnd.random() < 0.3 else [(0, 1, 0, 0, 0), start]
+    if k == "i2c":
+        wb, cmd, pscl, done = ctx[:4]
+        if wb is not None:
+            return [(1, wb[0], b, wb[1]) for b in (1, 0)]
+        out = [(0, 0, b, 0) for b in (1, 0)]
+        if cmd is None and done >= 1 and rnd.random() < 0.5:
+            words = []
+            for kind in cfg["cmds"]:
+                if kind == "start":
+                    words.append((2048, 0))
+                elif kind == "stop":
+                    words.append((4096, 0))
+                elif kind == "write":
+                    words.append((1024 + rnd.choice(cfg["bytes"]), rnd.choice([1, 1, 2])))
+                else:
+                    words.append((512 + 256 * rnd.randint(0, 1), rnd.randint(1, len(cfg["sbytes"]))))
+            rnd.shuffle(words)
+            out = [(1, w, b, g) for w, g in words for b in (1, 0)] + out
+        return out
+    raise ValueError(k)
